@@ -378,15 +378,19 @@ fn main() {
             continue;
         }
         if first == "S" {
-            // S <pair idx> <f|p> <hex> <script>
+            // S <pair idx> <f|p> <hex> <script> [<hex of the second buffer>]
             let pidx: usize = parts.next().unwrap().parse().unwrap();
             let partial = parts.next().unwrap_or("f").contains('p');
             let bytes = unhex(parts.next().unwrap_or(""));
             let boxed: Box<[u8]> = bytes.into_boxed_slice();
             let script = parts.next().unwrap_or("");
+            let boxed2: Box<[u8]> = match parts.next() {
+                Some(h) => unhex(h).into_boxed_slice(),
+                None => boxed.clone(),
+            };
             let r = catch_unwind(AssertUnwindSafe(|| {
                 let mut b = String::new();
-                let known = defs::dispatch_api(pidx, &boxed, partial, script, &mut b);
+                let known = defs::dispatch_api(pidx, &boxed, &boxed2, partial, script, &mut b);
                 (known, b)
             }));
             match r {
